@@ -35,6 +35,11 @@ const c10xRule = "TestC10Faults: directory store, no collection policy; request 
 func c10xSweep(h *olareg.Server, repos []string, tags []string, mans []string, blobs []string, subject string) string {
 	var sb strings.Builder
 	for _, rn := range repos {
+		// blobs first: what a blob request answers must not depend on whether the index was looked at before
+		for _, d := range blobs {
+			g := doReq(h, "HEAD", "/v2/"+rn+"/blobs/"+d, nil, nil)
+			fmt.Fprintf(&sb, "%s blob-first %s %d\n", rn, short(d), g.code)
+		}
 		r := doReq(h, "GET", "/v2/"+rn+"/tags/list", nil, nil)
 		fmt.Fprintf(&sb, "%s tags %d %s\n", rn, r.code, strings.TrimSpace(string(r.body)))
 		for _, tg := range tags {
@@ -83,6 +88,7 @@ func c10xProperty(t *rapid.T, st *Stats) {
 	}
 	total, totalReads := vfs.MutCount(), vfs.ReadCount()
 	indexReads := c12fReadOrdinals(vfs.Log(), root0, "/index.json")
+	probeReads := c12fReadOrdinals(vfs.Log(), root0, "probes")
 	_ = h0.Close()
 	if total == 0 {
 		st.Case([]string{"history without mutating call"}, false)
@@ -95,9 +101,15 @@ func c10xProperty(t *rapid.T, st *Stats) {
 		limit = totalReads
 	}
 	k := rapid.IntRange(1, limit).Draw(t, "faultAt")
-	if readFault && len(indexReads) > 0 && rapid.Bool().Draw(t, "readOfIndexJSON") {
-		// half of the reading faults go to the file everything else hangs on (uniform over its reads)
-		k = rapid.SampledFrom(indexReads).Draw(t, "indexRead")
+	if readFault && len(indexReads) > 0 && len(probeReads) > 0 {
+		// a third of the reading faults goes to the opens of the file everything else hangs on, a third to the probes
+		// the store makes when it meets a repository (uniform within the class), a third anywhere
+		switch rapid.IntRange(0, 2).Draw(t, "readClass") {
+		case 1:
+			k = rapid.SampledFrom(indexReads).Draw(t, "indexRead")
+		case 2:
+			k = rapid.SampledFrom(probeReads).Draw(t, "probeRead")
+		}
 	}
 	k2 := 0
 	if !readFault && rapid.IntRange(0, 3).Draw(t, "secondFault") == 0 {
